@@ -15,7 +15,7 @@ from commonroad.planning.planning_problem import PlanningProblemSet
 from contracts.c01 import CONTENTS, RoundTrip, mk_planning_problems, mk_scenario
 from pyvc.contract import B, Contract, R, T, conj, register, scratch_dir
 
-XSD = "/repo/commonroad/scenario_definition/xml_definition_files/XML_commonRoad_XSD.xsd"
+XSD = os.path.join(os.path.dirname(__import__("commonroad").__file__), "scenario_definition/xml_definition_files/XML_commonRoad_XSD.xsd")
 
 
 for _cname in CONTENTS:
